@@ -4,6 +4,7 @@ use std::io::Write;
 
 use crate::runner::RunSpec;
 use crate::simkit::cluster::Event;
+use crate::simkit::cluster::LinkId;
 use crate::simkit::cluster::Op;
 use crate::simkit::cluster::Opts;
 use crate::simkit::cluster::VoteAns;
@@ -35,7 +36,7 @@ pub fn cluster_check(property: &str, tier: &str) -> Option<Check> {
     let quick = tier != "thorough";
     let three = Opts::default();
     match property {
-        "C01" | "C31" => {
+        "C01" | "C31" | "ALL" => {
             let mut menu = Menu::default();
             menu.breaks = !quick;
             menu.max_heartbeats = 1;
@@ -79,6 +80,126 @@ pub fn cluster_check(property: &str, tier: &str) -> Option<Check> {
                 });
             }
             Some(Check { runs, budget_s: if quick { 50 } else { 900 } })
+        }
+        "C02" => {
+            // votes and terms across crashes: every event of every node may be followed by a
+            // crash (process / power) or a graceful stop, then restart and further elections
+            let mut menu = Menu::default();
+            menu.heartbeats = false;
+            menu.vote_answers = vec![VoteAns::Deliver, VoteAns::LoseResp];
+            // the property quantifies over process crashes (power loss of the meta store is C21)
+            menu.crashes = vec![CrashMode::Process];
+            menu.stops = true;
+            menu.max_crashes = if quick { 2 } else { 3 };
+            let runs = vec![
+                RunSpec {
+                    name: "3v-votes-and-crashes".into(),
+                    opts: three.clone(),
+                    menu: menu.clone(),
+                    prefix: vec![],
+                    max_depth: if quick { 10 } else { 14 },
+                    max_devs: if quick { 3 } else { 4 },
+                },
+                RunSpec {
+                    name: "3v-after-first-election".into(),
+                    opts: three.clone(),
+                    menu,
+                    prefix: elect(1, &[1, 2, 3]),
+                    max_depth: if quick { 8 } else { 12 },
+                    max_devs: if quick { 3 } else { 4 },
+                },
+            ];
+            Some(Check { runs, budget_s: if quick { 50 } else { 900 } })
+        }
+        "C04" | "C05" | "C06" | "C07" | "C09" | "C14" | "C29" => {
+            let mut menu = Menu::default();
+            menu.max_heartbeats = 2;
+            menu.deliver_batch_max = 2;
+            menu.breaks = true;
+            menu.writes = vec![put("a", "1"), put("a", "2"), put("b", "3"), put("a", "4")];
+            menu.max_writes = 2;
+            menu.vote_answers = vec![VoteAns::Deliver, VoteAns::Lose];
+            let mut opts = three.clone();
+            opts.cap = 2;
+            match property {
+                "C05" | "C09" => {
+                    menu.crashes = vec![CrashMode::Process, CrashMode::Power];
+                    menu.max_crashes = 2;
+                }
+                "C06" => {
+                    opts.gated_sm = vec![1, 2, 3];
+                    menu.writes = vec![
+                        put("a", "1"),
+                        Op::Cas("a".into(), Some("1".into()), "2".into()),
+                        Op::Del("a".into()),
+                        Op::PutTtl("b".into(), "3".into(), 5),
+                    ];
+                    menu.max_writes = 3;
+                    menu.breaks = false;
+                }
+                "C14" => {
+                    menu.write_targets = crate::simkit::menu::Targets::All;
+                    opts.max_pending_writes = 1;
+                    menu.write_pairs = vec![(put("a", "p1"), put("a", "p2")), (put("a", "p3"), put("a", "p4"))];
+                    menu.mid_turn_timers = false;
+                    menu.max_writes = 3;
+                    menu.writes = vec![put("a", "1"), put("a", "2"), put("b", "3")];
+                }
+                "C29" => {
+                    opts.gated_sm = vec![1];
+                    menu.writes = vec![
+                        put("a", "1"),
+                        Op::Cas("a".into(), Some("1".into()), "2".into()),
+                        Op::Cas("a".into(), Some("zz".into()), "3".into()),
+                        Op::Del("a".into()),
+                    ];
+                    menu.write_pairs = vec![
+                        (put("a", "p1"), Op::Cas("a".into(), Some("p1".into()), "p2".into())),
+                        (Op::Cas("a".into(), None, "p3".into()), put("b", "p4")),
+                    ];
+                    menu.max_writes = 3;
+                    menu.breaks = false;
+                }
+                _ => {}
+            }
+            let l12 = LinkId { from: 1, to: 2, generation: 1 };
+            let l13 = LinkId { from: 1, to: 3, generation: 1 };
+            // leader 1 elected, noop replicated to and acknowledged by node 2 only
+            let mut p_lag: Vec<Event> = elect(1, &[1, 2, 3]);
+            p_lag.extend([Event::Deliver(l12, 1), Event::DeliverResp(l12)]);
+            // follower 3 lags: two writes replicated to node 2 only
+            let mut p_lag3 = p_lag.clone();
+            for w in [put("x", "w1"), put("x", "w2"), put("x", "w3")] {
+                p_lag3.extend([Event::ClientWrite(1, w), Event::Deliver(l12, 1), Event::DeliverResp(l12)]);
+            }
+            let runs = vec![
+                RunSpec {
+                    name: "3v-leader-elected-cap2".into(),
+                    opts: opts.clone(),
+                    menu: menu.clone(),
+                    prefix: elect(1, &[1, 2, 3]),
+                    max_depth: if quick { 8 } else { 12 },
+                    max_devs: if quick { 2 } else { 3 },
+                },
+                RunSpec {
+                    name: "3v-follower3-lags-by-4-cap2".into(),
+                    opts: opts.clone(),
+                    menu: menu.clone(),
+                    prefix: p_lag3,
+                    max_depth: if quick { 7 } else { 11 },
+                    max_devs: if quick { 2 } else { 3 },
+                },
+                RunSpec {
+                    name: "3v-from-boot-cap2".into(),
+                    opts: opts.clone(),
+                    menu: menu.clone(),
+                    prefix: vec![],
+                    max_depth: if quick { 9 } else { 13 },
+                    max_devs: if quick { 1 } else { 2 },
+                },
+            ];
+            let _ = l13;
+            Some(Check { runs, budget_s: if quick { 50 } else { 1200 } })
         }
         _ => None,
     }
